@@ -151,6 +151,17 @@ def judge(ctx, case):
         ctx.ev()
         if rd.get("ok", {}).get("pub") != want:
             ctx.viol("recover_public_key_from_digest does not return the signer's public key", {"got": str(rd.get("ok", rd.get("err", rd.get("panic"))))[:200]})
+        # the high-S twin of the same signature: (r, n-s) with the y-parity bit of the header flipped recovers the same key
+        cb_ = bytes.fromhex(comp)
+        hdr_ = cb_[0]
+        rec_ = (hdr_ - 27) & 3
+        twin = bytes([hdr_ - rec_ + (rec_ ^ 1)]) + cb_[1:33] + (ec.N - int.from_bytes(cb_[33:], "big")).to_bytes(32, "big")
+        for rq, what in (({"op": "recover", "compact": twin.hex(), "msg": case["msg"], "hash": case["hash"]}, "recover_public_key"), ({"op": "recover", "compact": twin.hex(), "digest": d.hex()}, "recover_public_key_from_digest"), ({"op": "recover", "compact": twin.hex(), "msg": case["msg"], "hash": case["hash"], "inner": True}, "get_public_key")):
+            rt_ = ctx.call(rq)
+            ctx.ev()
+            ctx.hit("recover_high_s_twin")
+            if rt_.get("ok", {}).get("pub") != want:
+                ctx.viol("%s does not return the signer's key for the high-S form (r, n-s, parity flipped) of the signature" % what, {"got": str(rt_.get("ok", rt_.get("err", rt_.get("panic"))))[:200]})
         # the inner public functions behind the two wrappers
         for rq, what in (({"op": "recover", "compact": comp, "msg": case["msg"], "hash": case["hash"], "inner": True}, "get_public_key"), ({"op": "recover", "compact": comp, "digest": d.hex(), "inner": True}, "get_public_key_from_digest")):
             ri = ctx.call(rq)
@@ -213,6 +224,16 @@ def judge(ctx, case):
             "three integers": b"\x30" + bytes([len(ri) + len(si) + 3]) + ri + si + b"\x02\x01\x01",
             "one byte": b"\x30",
             "flag only": bytes([rnd.choice(FLAGS)]),
+            # BER forms that DER forbids
+            "long-form sequence length (30 81 LL)": b"\x30\x81" + good[1:],
+            "long-form sequence length with leading zero (30 82 00 LL)": b"\x30\x82\x00" + good[1:],
+            "long-form integer length for r (02 81 LL)": b"\x30" + bytes([good[1] + 1]) + b"\x02\x81" + ri[1:] + si,
+            "long-form integer length for s (02 81 LL)": b"\x30" + bytes([good[1] + 1]) + ri + b"\x02\x81" + si[1:],
+            "indefinite sequence length (30 80 .. 00 00)": b"\x30\x80" + good[2:] + b"\x00\x00",
+            "r with an unnecessary leading zero": b"\x30" + bytes([good[1] + 1]) + b"\x02" + bytes([ri[1] + 1]) + b"\x00" + ri[2:] + si if not (ri[2] & 0x80) else b"",
+            "s with an unnecessary leading zero": b"\x30" + bytes([good[1] + 1]) + ri + b"\x02" + bytes([si[1] + 1]) + b"\x00" + si[2:] if not (si[2] & 0x80) else b"",
+            "sequence followed by a zero byte": good + b"\x00",
+            "leading zero byte before the sequence": b"\x00" + good,
         }
         for name, b in fam.items():
             if ec.der_parse_strict(b) is not None:
@@ -225,6 +246,15 @@ def judge(ctx, case):
                     ctx.viol("malformed DER accepted: %s" % name, {"der": b.hex(), "via": via, "parsed": str(p["ok"])[:150]})
                 elif "panic" in p:
                     ctx.note("malformed DER panics (C09): %s" % name)
+                # the same malformed encoding followed by one sighash flag byte (from_der tolerates exactly DER || flag)
+                if b and name not in ("flag only", "trailing non-flag byte", "two flag bytes", "flag then junk") and ec.der_parse_strict(b[:-1]) is None:
+                    fb = b + bytes([rnd.choice(FLAGS)])
+                    if ec.der_parse_strict(fb) is None and ec.der_parse_strict(fb[:-1]) is None:
+                        ctx.hit("der_bad")
+                        p2 = ctx.call({"op": "sig_from_der", "hex": fb.hex(), "via": via})
+                        ctx.ev()
+                        if "ok" in p2:
+                            ctx.viol("malformed DER followed by a flag byte accepted: %s" % name, {"der": fb.hex(), "via": via})
         # DER || flag || flag through SighashSignature::from_bytes: exactly one flag byte may follow the DER part
         for f1 in rnd.sample(FLAGS, 4):
             for f2 in rnd.sample(FLAGS, 2):
